@@ -79,6 +79,7 @@ func Run(homeDir app.File, meta app.Meta, config app.Config, args []string) (int
 		styler,
 		config,
 	)
+	ctx = verifWrapContext(ctx)
 
 	// When klog is invoked by shell completion (specifically, when the
 	// bash-specific COMP_LINE environment variable is set), the
